@@ -35,6 +35,7 @@ class _AttachClient(BaseClient):
         self.copy_vars, self.bad = copy_vars, []
         self.not_parent = set()
         self.key_of = {}
+        self.once_stmts = set()
 
     def call_may_raise(self, call):
         return False
@@ -69,6 +70,11 @@ class _AttachClient(BaseClient):
                 self.key_of[k.id] = it.func.value.id
         elif isinstance(it, ast.Name) and isinstance(tg, ast.Name):
             self.key_of[tg.id] = it.id
+        elif isinstance(it, ast.Name) and isinstance(tg, ast.Tuple) and tg.elts and isinstance(tg.elts[0], ast.Name):
+            self.key_of[tg.elts[0].id] = it.id          # `for name, value in pairs`: the keys are the first components of the list's entries
+        elif isinstance(it, ast.Call) and getattr(it.func, "id", "") == "zip" and it.args and isinstance(it.args[0], ast.Name) \
+                and isinstance(tg, ast.Tuple) and tg.elts and isinstance(tg.elts[0], ast.Name):
+            self.key_of[tg.elts[0].id] = it.args[0].id  # `for name, value in zip(names, values)`
 
     def _not_parent(self, name, S):
         """the key cannot be "parent": established by a test on this path, or drawn from a dictionary that only ever received such keys"""
@@ -93,9 +99,23 @@ class _AttachClient(BaseClient):
                                 neg = isinstance(part, ast.UnaryOp) and isinstance(part.op, ast.Not)
                                 S1 = self.assume(part.operand if neg else part, not neg, S1)
                         S = frozenset(S | {("CLEANDICT" if ("NOTPARENT", v1.key.id) in S1 else "DIRTYDICT", t1.id)})
+        # the list form of the same: `L = []` ... `L.append(k)` / `L.append((k, v))` with k a key that passed the test
+        if isinstance(s, ast.Assign):
+            for t in s.targets:
+                if isinstance(t, ast.Name) and isinstance(s.value, ast.List) and not s.value.elts:
+                    S = frozenset(S | {("CLEANDICT", t.id)})
+        if isinstance(s, ast.Expr) and isinstance(s.value, ast.Call) and isinstance(s.value.func, ast.Attribute) and s.value.func.attr == "append" \
+                and isinstance(s.value.func.value, ast.Name) and len(s.value.args) == 1:
+            a0 = s.value.args[0]
+            k0 = a0.elts[0] if isinstance(a0, ast.Tuple) and a0.elts else a0
+            clean = isinstance(k0, ast.Name) and self._not_parent(k0.id, S)
+            S = frozenset(S | {("CLEANDICT" if clean else "DIRTYDICT", s.value.func.value.id)})
         fallible = [c for c in ast.walk(s) if isinstance(c, ast.Call) and (getattr(c.func, "id", "") == "setattr" or getattr(c.func, "attr", "") in ("update", "_process_style_kwargs"))]
         fallible += [t for t in (s.targets if isinstance(s, ast.Assign) else []) if isinstance(t, ast.Attribute) and isinstance(t.value, ast.Name)
                      and t.value.id in self.copy_vars and not t.attr.startswith("_")]
+        if id(s) in self.once_stmts:
+            # inside a loop that runs at most once the attaching statement does not follow itself
+            fallible = [x for x in fallible if not (isinstance(x, ast.Attribute) and x.attr == "parent")]
         if ("ATTACHED",) in S and fallible and s not in self.bad:
             self.bad.append(s)
         attach = False
@@ -187,6 +207,23 @@ def run(repo, res, tier):
                             "the copy would keep (a deep copy of) the parent collection", dc.lineno))
     # ---- K7: the copy is attached to a collection (parent= override) only when nothing can reject the call any more
     ac = _AttachClient(copy_vars)
+    # loops that run at most once (`for p in (x,) if c else (): ..`, the iterable bound once): their body is not "after itself"
+    _defs = {}
+    for a_ in ast.walk(fn):
+        if isinstance(a_, ast.Assign) and len(a_.targets) == 1 and isinstance(a_.targets[0], ast.Name):
+            _defs.setdefault(a_.targets[0].id, []).append(a_.value)
+
+    def _at_most_one(e, depth=0):
+        if isinstance(e, ast.Name) and len(_defs.get(e.id, [])) == 1 and depth < 2:
+            return _at_most_one(_defs[e.id][0], depth + 1)
+        if isinstance(e, (ast.Tuple, ast.List)):
+            return len(e.elts) <= 1 and not any(isinstance(x, ast.Starred) for x in e.elts)
+        if isinstance(e, ast.IfExp):
+            return _at_most_one(e.body, depth) and _at_most_one(e.orelse, depth)
+        return False
+    for lp in ast.walk(fn):
+        if isinstance(lp, ast.For) and _at_most_one(lp.iter):
+            ac.once_stmts |= {id(x) for b_ in lp.body for x in ast.walk(b_) if isinstance(x, ast.stmt)}
     function_exits(fn, ac)
     res.ob("K7:copy attached to its new parent last", not ac.bad, {"rule": "K7", "fallible_statements_after_attaching": [norm(b) for b in ac.bad]})
     for b in ac.bad[:1]:
